@@ -1030,7 +1030,9 @@ ws_read_frame_cb(nni_ws *ws, ws_frame *frame)
 		ws->peer_closed = true;
 		if (!ws->closed) {
 			ws_close(ws, WS_CLOSE_NORMAL_CLOSE);
-		} else {
+		} else if (ws->wclose) {
+			// (not if the close operation is over already: it timed
+			// out, or the close frame could not be allocated)
 			ws->wclose = false;
 			nni_aio_finish(&ws->closeaio, 0, 0);
 		}
